@@ -1,11 +1,17 @@
 #!/bin/bash
-# usage: tools/corr.sh <stream> [tier] [seed] [--debug]   — quick manual correspondence run
+# usage: tools/corr.sh <stream> [tier] [seed]   — quick manual correspondence run
 B=/verif/.build/cargo/release/harness; M=/verif/lean/.lake/build/bin/mqttmodel; W=/verif/.build/work
 s=$1; tier=${2:-quick}; seed=${3:-0}
 $B gen $s $tier $seed > $W/$s.ops || exit 1
 echo "ops: $(wc -l < $W/$s.ops)"
 ( time $B run < $W/$s.ops > $W/$s.impl ) 2>&1 | grep real
 ( time $M < $W/$s.ops > $W/$s.model ) 2>&1 | grep real
-paste -d'|' $W/$s.ops $W/$s.impl $W/$s.model | awk -F'|' '$2!=$3' > $W/$s.diff
-echo "disagreements: $(wc -l < $W/$s.diff)"
-cut -c1-400 $W/$s.diff | head -${SHOW:-6}
+python3 - "$W/$s" <<'PY'
+import sys
+b=sys.argv[1]
+ops=open(b+'.ops').read().splitlines(); a=open(b+'.impl').read().splitlines(); m=open(b+'.model').read().splitlines()
+bad=[(o,x,y) for o,x,y in zip(ops,a,m) if x!=y]
+print("disagreements:",len(bad), "(lines impl/model/ops:",len(a),len(m),len(ops),")")
+for o,x,y in bad[:6]:
+    print(" op:   ",o[:300]); print("  impl: ",x[:300]); print("  model:",y[:300])
+PY
